@@ -346,4 +346,107 @@ theorem uvSphere_pos_inj_aux {R C : Nat} {r : ℝ} (hr : 0 < r) (hR : 2 ≤ R) (
   rw [← ev, ← ew] at h ⊢
   exact uvSpherePos_inj_enc hr hR hC pv pw h
 
+/-- `Closed` in counting form: every directed edge occurs exactly once, its reverse occurs exactly once, no loops -/
+theorem closed_iff_count {β : Type} [DecidableEq β] (ts : List (β × β × β)) :
+    Closed ts ↔ ∀ e ∈ edges ts, (edges ts).count e = 1 ∧ (edges ts).count (e.2, e.1) = 1 ∧ e.1 ≠ e.2 := by
+  constructor
+  · rintro ⟨hnd, htw, hnl⟩ e he
+    exact ⟨List.count_eq_one_of_mem hnd he, List.count_eq_one_of_mem hnd (htw e he), hnl e he⟩
+  · intro h
+    refine ⟨?_, ?_, ?_⟩
+    · rw [List.nodup_iff_count_le_one]
+      intro e
+      by_cases he : e ∈ edges ts
+      · exact (h e he).1.le
+      · rw [List.count_eq_zero_of_not_mem he]; exact Nat.zero_le _
+    · intro e he
+      have := (h e he).2.1
+      exact List.count_pos_iff.1 (by omega)
+    · exact fun e he => (h e he).2.2
+
+/-! ### hemisphere: no two vertices coincide -/
+
+theorem psiOf_inj {R ρ ρ' : Nat} (hR : 1 ≤ R) (h1 : 1 ≤ ρ) (h1' : 1 ≤ ρ') (h : psiOf R ρ = psiOf R ρ') : ρ = ρ' := by
+  have hR0 : (R : ℝ) ≠ 0 := by positivity
+  have hπ : π ≠ 0 := pi_ne_zero
+  unfold psiOf at h
+  have : ((ρ - 1 : ℕ) : ℝ) = ((ρ' - 1 : ℕ) : ℝ) := by
+    field_simp at h
+    linarith
+  have : ρ - 1 = ρ' - 1 := by exact_mod_cast this
+  omega
+
+theorem hemiPosL_inj {R C : Nat} {r : ℝ} (hr : 0 < r) (hR : 2 ≤ R) (hC : 3 ≤ C) {p q : LP}
+    (hp : UvValid R C p) (hq : UvValid R C q) (h : hemiPosL r R C p = hemiPosL r R C q) : p = q := by
+  have hr0 : r ≠ 0 := hr.ne'
+  have hR0 : R ≠ 0 := by omega
+  -- the pole is `Pang r 0 θ`
+  have pole : ∀ θ, (⟨0, r, 0⟩ : V3 ℝ) = Pang r 0 θ := by intro θ; simp [Pang, V3.New, V3.Scale]
+  -- a point on the sphere is not the origin
+  have ne0 : ∀ φ θ, Pang r φ θ ≠ ⟨0, 0, 0⟩ := by
+    intro φ θ e
+    have := Pang_lengthSquared r φ θ
+    rw [e] at this
+    simp [V3.LengthSquared] at this
+    exact hr0 (pow_eq_zero_iff (by norm_num) |>.1 this.symm)
+  -- sphere points: equal positions force equal polar angle (in [0, π/2]) and, off the pole, equal azimuth
+  have key : ∀ {φ φ' θ θ' : ℝ}, 0 ≤ φ → φ ≤ π → 0 ≤ φ' → φ' ≤ π → Pang r φ θ = Pang r φ' θ' →
+      φ = φ' ∧ (0 < sin φ → cos θ = cos θ' ∧ sin θ = sin θ') := by
+    intro φ φ' θ θ' a1 a2 b1 b2 e
+    simp only [Pang, V3.New, V3.Scale, V3.mk.injEq] at e
+    obtain ⟨hx, hy, hz⟩ := e
+    have hφ : φ = φ' := Real.injOn_cos ⟨a1, a2⟩ ⟨b1, b2⟩ (mul_right_cancel₀ hr0 hy)
+    subst hφ
+    refine ⟨rfl, fun hs => ?_⟩
+    exact ⟨mul_left_cancel₀ hs.ne' (mul_right_cancel₀ hr0 hx), mul_left_cancel₀ hs.ne' (mul_right_cancel₀ hr0 hz)⟩
+  have psi_rng : ∀ {ρ}, 1 ≤ ρ → ρ < R → 0 < psiOf R ρ ∧ psiOf R ρ ≤ π := fun h1 h2 =>
+    ⟨(psiOf_pos_le h1 h2).1, by linarith [(psiOf_pos_le h1 h2).2, pi_pos]⟩
+  rcases hp with rfl | rfl | ⟨p1, p2, p3⟩ <;> rcases hq with rfl | rfl | ⟨q1, q2, q3⟩
+  · rfl
+  · simp only [hemiPosL, if_true, hR0, if_false] at h
+    rw [pole 0] at h; exact absurd h.symm (ne0 _ _)
+  · obtain ⟨ρ', c'⟩ := q
+    simp only at q1 q2 q3
+    simp only [hemiPosL, if_true, if_false, show ρ' ≠ 0 by omega, show ρ' ≠ R by omega] at h
+    exact absurd h.symm (ne0 _ _)
+  · simp only [hemiPosL, if_true, hR0, if_false] at h
+    rw [pole 0] at h; exact absurd h (ne0 _ _)
+  · rfl
+  · obtain ⟨ρ', c'⟩ := q
+    simp only at q1 q2 q3
+    simp only [hemiPosL, if_true, if_false, hR0, show ρ' ≠ 0 by omega, show ρ' ≠ R by omega] at h
+    rw [pole 0] at h
+    have := (key (le_refl 0) pi_pos.le (psi_rng q1 q2).1.le (psi_rng q1 q2).2 h).1
+    linarith [(psi_rng q1 q2).1]
+  · obtain ⟨ρ, c⟩ := p
+    simp only at p1 p2 p3
+    simp only [hemiPosL, if_true, if_false, show ρ ≠ 0 by omega, show ρ ≠ R by omega] at h
+    exact absurd h (ne0 _ _)
+  · obtain ⟨ρ, c⟩ := p
+    simp only at p1 p2 p3
+    simp only [hemiPosL, if_true, if_false, hR0, show ρ ≠ 0 by omega, show ρ ≠ R by omega] at h
+    rw [pole 0] at h
+    have := (key (psi_rng p1 p2).1.le (psi_rng p1 p2).2 (le_refl 0) pi_pos.le h).1
+    linarith [(psi_rng p1 p2).1]
+  · obtain ⟨ρ, c⟩ := p
+    obtain ⟨ρ', c'⟩ := q
+    simp only at p1 p2 p3 q1 q2 q3
+    simp only [hemiPosL, if_false, show ρ ≠ 0 by omega, show ρ ≠ R by omega, show ρ' ≠ 0 by omega,
+      show ρ' ≠ R by omega] at h
+    obtain ⟨hψ, hθ⟩ := key (psi_rng p1 p2).1.le (psi_rng p1 p2).2 (psi_rng q1 q2).1.le (psi_rng q1 q2).2 h
+    have hρ : ρ = ρ' := psiOf_inj (by omega) p1 q1 hψ
+    subst hρ
+    obtain ⟨hc, hs⟩ := hθ (sin_psi_pos p1 p2)
+    rw [thetaOf_eq_angOf, thetaOf_eq_angOf] at hc hs
+    rw [ang_inj (by omega) p3 q3 hc hs]
+
+/-- the hemisphere has no two vertices at the same position -/
+theorem hemisphere_pos_inj_aux {R C : Nat} {r : ℝ} (hr : 0 < r) (hR : 2 ≤ R) (hC : 3 ≤ C) {v w : Nat}
+    (hv : v < uvSphereNV R C) (hw : w < uvSphereNV R C) (h : hemispherePos r R C v = hemispherePos r R C w) : v = w := by
+  obtain ⟨pv, ev⟩ := uvEnc_uvDec hR hC hv
+  obtain ⟨pw, ew⟩ := uvEnc_uvDec hR hC hw
+  rw [← ev, ← ew] at h ⊢
+  rw [hemispherePos_enc r hR hC _ pv, hemispherePos_enc r hR hC _ pw] at h
+  rw [hemiPosL_inj hr hR hC pv pw h]
+
 end PolyVerif.Solids
